@@ -1,24 +1,69 @@
 /*@UNIT
 {
-  "property": "C13",
-  "unit": "sub_exact",
-  "function": "pstm_sub",
-  "source": "crypto/math/pstm.c",
-  "keep_bodies": ["s_pstm_add", "pstm_sub_s", "pstm_cmp_mag", "pstm_clamp", "pstm_grow"],
-  "assumed": ["realloc (model c13_realloc in c13x.h: NULL, or a distinct constant-size block holding the old contents)"],
-  "replace": [],
-  "mode": "bounded",
-  "bounds": "operands of at most NDIG digits (quick 3 = 192 bit, thorough 4 = 256 bit), capacities 1..NDIG+2, every digit value, every sign, every aliasing",
-  "defs_quick": ["NDIG=3"],
-  "defs_thorough": ["NDIG=4"],
-  "unwind_quick": 10,
-  "unwind_thorough": 11,
-  "object_bits": 8,
-  "solver": "cadical",
-  "cases": [{"name": "distinct", "defs": []}, {"name": "alias_ca", "defs": ["ALIAS_CA=1"]}, {"name": "alias_cb", "defs": ["ALIAS_CB=1"], "tier": "thorough"},
-            {"name": "alias_ab", "defs": ["ALIAS_AB=1"], "tier": "thorough"}, {"name": "alias_all", "defs": ["ALIAS_ALL=1"], "tier": "thorough"}],
-  "native_replay": true,
-  "timeout": 900
+ "property": "C13",
+ "unit": "sub_exact",
+ "function": "pstm_sub",
+ "source": "crypto/math/pstm.c",
+ "keep_bodies": [
+  "s_pstm_add",
+  "pstm_sub_s",
+  "pstm_cmp_mag",
+  "pstm_clamp",
+  "pstm_grow"
+ ],
+ "assumed": [
+  "realloc (model c13_realloc in c13x.h: NULL, or a distinct constant-size block holding the old contents)"
+ ],
+ "replace": [],
+ "mode": "bounded",
+ "bounds": "operands of at most NDIG digits (quick 3 = 192 bit, thorough 4 = 256 bit), capacities 1..NDIG+2, every digit value, every sign, every aliasing",
+ "defs_quick": [
+  "NDIG=3"
+ ],
+ "defs_thorough": [
+  "NDIG=4"
+ ],
+ "unwind_quick": 10,
+ "unwind_thorough": 11,
+ "object_bits": 8,
+ "solver": "cadical",
+ "cases": [
+  {
+   "name": "distinct",
+   "defs": []
+  },
+  {
+   "name": "alias_ca",
+   "defs": [
+    "ALIAS_CA=1"
+   ]
+  },
+  {
+   "name": "alias_cb",
+   "defs": [
+    "ALIAS_CB=1"
+   ],
+   "tier": "thorough"
+  },
+  {
+   "name": "alias_ab",
+   "defs": [
+    "ALIAS_AB=1"
+   ],
+   "tier": "parked",
+   "parked_reason": "with a and b the same object the result is always 0 and the must-fail clause of the unit cannot fail: the vacuity check reports the case, it is not run"
+  },
+  {
+   "name": "alias_all",
+   "defs": [
+    "ALIAS_ALL=1"
+   ],
+   "tier": "parked",
+   "parked_reason": "with a and b the same object the result is always 0 and the must-fail clause of the unit cannot fail: the vacuity check reports the case, it is not run"
+  }
+ ],
+ "native_replay": true,
+ "timeout": 900
 }
 @*/
 /* C13.sub_exact  val(c) == val(a - b) as mathematical integers (wide two's complement spec),
